@@ -1394,6 +1394,7 @@ class PackBasedObjectStore(PackCapableObjectStore, PackedObjectContainer):
     def __iter__(self) -> Iterator[ObjectID]:
         """Iterate over the SHAs that are present in this store."""
         self._update_pack_cache()
+        listed = set(self._pack_cache)
         for pack in self._iter_cached_packs():
             try:
                 yield from pack
@@ -1402,7 +1403,10 @@ class PackBasedObjectStore(PackCapableObjectStore, PackedObjectContainer):
         yield from self._iter_loose_objects()
         # Objects packed by a concurrent repack while the loose objects were
         # being listed are no longer loose: pick up the packs that appeared.
-        for pack in self._update_pack_cache():
+        self._update_pack_cache()
+        for name, pack in list(self._pack_cache.items()):
+            if name in listed:
+                continue
             try:
                 yield from pack
             except PackFileDisappeared as exc:
